@@ -2,6 +2,7 @@
 
 use crate::fw::{Cfg, Phase};
 
+pub mod c01;
 pub mod c02;
 pub mod c03;
 pub mod c04;
@@ -20,6 +21,7 @@ pub mod synt;
 
 pub fn build(cfg: &Cfg) -> (Vec<Box<dyn Phase>>, Result<String, String>) {
     match cfg.property.as_str() {
+        "C01" => (c01::phases(cfg), c01::selfcheck()),
         "C02" => (c02::phases(cfg), c02::selfcheck()),
         "C04" => (c04::phases(cfg), c04::selfcheck()),
         "C05" => (c05::phases(cfg), c05::selfcheck()),
